@@ -91,14 +91,12 @@ def edge (s : St) (t : Tid) (e : Ev) : String :=
   | .rdHold _ _, .call .rel => "rdHold/call-rel"
   | .rdRel _ _, .dec c _ => s!"rdRel/dec-{sd c}"
   | .wCalled _, .lock => s!"wCalled/lock-rl{sd s.rl}"
-  | .wA _ _, .ldRL _ => "wA/ldRL"
   | .wA _ _, .fBegin _ => "wA/fBegin"
   | .wA _ _, .uth => "wA/uth"
   | .wF1 _ _, .fEnd _ _ => "wF1/fEnd"
   | .wF1 _ _, .uth => "wF1/uth"
   | .wF1d _ _, .uth => "wF1d/uth"
   | .wF1d _ _, .stRL _ => "wF1d/stRL"
-  | .wWait _ _ _ _, .ldCL v => s!"wWait/ldCL-{sd v}"
   | .wWait _ _ zL zR, .ldCnt c v =>
       if v = 0 then s!"wWait/ldCnt-zero-{sd c}-{if zOf c.flip zL zR then "second" else "first"}"
       else s!"wWait/ldCnt-nonzero-{if zL || zR then "second" else "first"}"
@@ -111,7 +109,14 @@ def edge (s : St) (t : Tid) (e : Ev) : String :=
   | .wF2d _ _, .uth => "wF2d/uth"
   | .wF2d _ _, .unlock => "wF2d/unlock"
   | .wExc _ fwd, .exc _ => if fwd then "wExc/exc-second" else "wExc/exc-first"
-  | pc, ev => if pc.post && (stutter s ev).isSome then s!"{p}/extra-load" else p
+  | pc, ev =>
+      -- flag loads by the mutex holder are not tied to a position (the discipline does not need them)
+      if pc.post && (stutter s ev).isSome then
+        match ev with
+        | .ldRL _ => "w/ldRL"
+        | .ldCL v => s!"w/ldCL-{sd v}"
+        | _ => s!"{p}/extra-load"
+      else p
 
 /-- the coverage keys of today's code: every model edge it exercises must be seen in the quick tier -/
 def edges : List String :=
@@ -119,8 +124,8 @@ def edges : List String :=
    "rdCalled/ldCL-L", "rdCalled/ldCL-R", "rdCL/inc-L", "rdCL/inc-R",
    "rdInc/ldRL-cntL-sideL", "rdInc/ldRL-cntL-sideR", "rdInc/ldRL-cntR-sideL", "rdInc/ldRL-cntR-sideR",
    "rdGot", "rdHold/rd-L", "rdHold/rd-R", "rdHold/call-rel", "rdRel/dec-L", "rdRel/dec-R", "rdRelD",
-   "wCalled/lock-rlL", "wCalled/lock-rlR", "wA/ldRL", "wA/fBegin", "wA/uth", "wF1/fEnd", "wF1/uth", "wF1d/uth", "wF1d/stRL",
-   "wRb", "wRbC", "wRbD", "wWait/ldCL-L", "wWait/ldCL-R",
+   "wCalled/lock-rlL", "wCalled/lock-rlR", "w/ldRL", "wA/fBegin", "wA/uth", "wF1/fEnd", "wF1/uth", "wF1d/uth", "wF1d/stRL",
+   "wRb", "wRbC", "wRbD", "w/ldCL-L", "w/ldCL-R",
    "wWait/ldCnt-zero-L-first", "wWait/ldCnt-zero-R-first", "wWait/ldCnt-zero-L-second", "wWait/ldCnt-zero-R-second",
    "wWait/ldCnt-nonzero-first", "wWait/ldCnt-nonzero-second", "wWait/yld-first", "wWait/yld-second", "wWait/stCL",
    "wWait/fBegin", "wWait/uth", "wF2/fEnd", "wF2/uth", "wF2d/uth",
